@@ -3,7 +3,7 @@ CONSTANTS
   CL <- MC_CL2
   OtherQ = {"c"}
   DepQ = {"d"}
-  Reps = {"r1"}
+  Reps = {"r1", "r2"}
   WinOf <- MC_Win
   TipAmts = {100}
   MaxH = 6
